@@ -19,10 +19,18 @@ PID = 'C08'
 LEAN_TARGETS = ['CfVerif.Props.C08']
 PROPS_MODULES = ['CfVerif.Props.C08']
 DRIVER = 'Driver/C08.lean'
-REQUIRED_THEOREMS = []
-TRUSTED = []
-ASSUMPTIONS = []
-RULE = ''
+REQUIRED_THEOREMS = ['CfVerif.C08.header_lossless', 'CfVerif.C08.hover_decodes', 'CfVerif.C08.setpoint_decodes']
+TRUSTED = ['harness/corr/c08.py extractor + correspondence + Python twin of the firmware decoder',
+           'Spec/C08.lean: the firmware packet layouts, type numbers, version gates and sign conventions (written from the firmware, not from cflib)',
+           "binary64->binary32 conversion inside struct.pack('f') and all double arithmetic (x-mode mix, v*1000, quaternion "
+           'normalisation/scaling) are computed by CPython/numpy and handed to the model as operands',
+           "struct '<' formats: little-endian, no padding"]
+ASSUMPTIONS = ['arguments are Python ints/bools/floats (None only for yaw of takeoff/land); other types are outside the model',
+               'warnings.warn(DeprecationWarning) and print() in the legacy branches do not raise']
+RULE = ('cases = one API call each (30 emitting methods x protocol versions -1..255 on both sides of every switch x x-mode), arguments '
+        'drawn per field from typical values, boundary/special floats (signed zeros, inf, nan, binary32 max and the first doubles that '
+        'overflow it, subnormals, +-2pi neighbours), any binary64/binary32 bit pattern, Python ints in float fields, field-width '
+        'boundaries of every integer field, bools, floats in integer fields; non-trivial = distinct request line')
 
 # ---------------------------------------------------------------------------------------------------
 # Tie A
@@ -277,3 +285,451 @@ def extract(ctx):
     X.expect(len(steps) == 1, 'compress_quaternion: expected one `comp = <bit expression>`')
     g.raw('def cqStep (comp negbit mag : Nat) : Nat := ' + X.expr_to_lean(steps[0].value, {'comp': 'comp', 'negbit': 'negbit', 'mag': 'mag'}))
     return {'C08.lean': g.render()}
+
+
+# ---------------------------------------------------------------------------------------------------
+# Tie B: the real code on a stub Crazyflie
+class _Link:
+    needs_resending = False
+
+    def __init__(self):
+        self.sent = []
+
+    def send_packet(self, pk):
+        # what every link driver transmits: the header byte followed by the data bytes
+        self.sent.append((pk.header, bytes(pk.data)))
+
+
+_STUB = {}
+
+
+def _stub_class():
+    """a Crazyflie stand-in without threads whose send_packet IS Crazyflie.send_packet"""
+    if 'cls' in _STUB:
+        return _STUB['cls']
+    import logging
+    logging.disable(logging.CRITICAL)
+    import threading
+    from cflib.crazyflie import Crazyflie
+    from cflib.crazyflie.commander import Commander
+    from cflib.crazyflie.extpos import Extpos
+    from cflib.crazyflie.high_level_commander import HighLevelCommander
+    from cflib.crazyflie.localization import Localization
+    from cflib.crazyflie.platformservice import PlatformService
+    from cflib.utils.callbacks import Caller
+    from lpslib.lopoanchor import LoPoAnchor
+
+    class StubCF:
+        send_packet = Crazyflie.send_packet
+
+        def __init__(self, ver):
+            self.link = _Link()
+            self._send_lock = threading.Lock()
+            self._answer_patterns = {}
+            self.packet_sent = Caller()
+            self.platform = PlatformService(self)
+            self.platform._protocolVersion = ver
+            self.commander = Commander(self)
+            self.high_level_commander = HighLevelCommander(self)
+            self.loc = Localization(self)
+            self.extpos = Extpos(self)
+            self.lopo = LoPoAnchor(self)
+
+        def add_port_callback(self, port, cb):
+            pass
+    _STUB['cls'] = StubCF
+    return StubCF
+
+
+def run_real(ver, fn):
+    """call fn(cf) on a fresh stub; canonical reply string"""
+    import contextlib
+    import io
+    import warnings
+    cf = _stub_class()(ver)
+    try:
+        with warnings.catch_warnings(), contextlib.redirect_stdout(io.StringIO()):
+            warnings.simplefilter('ignore')
+            fn(cf)
+    except Exception as e:
+        if cf._send_lock.locked():
+            return 'err lock-leaked:' + exc_enum(e)
+        if cf.link.sent:
+            return 'err after-send:' + exc_enum(e)
+        return 'err ' + exc_enum(e)
+    return 'ok ' + (';'.join('%d:%s' % (h, hexs(d)) for h, d in cf.link.sent) or '-')
+
+
+# ---- argument encoding ------------------------------------------------------------------------------
+def conv(x):
+    try:
+        return str(f32bits(x))
+    except OverflowError:
+        return 'Eoverflow'
+    except struct.error:
+        return 'Estruct_error'
+
+
+def num(x):
+    if isinstance(x, (bool, int)):
+        return 'i%d:%s' % (int(x), conv(x))
+    return 'f%d:%s' % (f64bits(x), conv(x))
+
+
+def optnum(x):
+    return 'none' if x is None else num(x)
+
+
+def scaled(x):
+    if isinstance(x, (bool, int)):
+        return 'i%d' % int(x)
+    return 'f%d' % f64bits(x * 1000)
+
+
+def vec3(v):
+    return ','.join(scaled(x) for x in v)
+
+
+def quat_oracle(quat):
+    """the double arithmetic of compress_quaternion (normalisation, scaling) - outside the model"""
+    import numpy as np
+    with np.errstate(all='ignore'):
+        quat_n = np.array(quat) / np.linalg.norm(quat)
+        M_SQRT1_2 = 1.0 / np.sqrt(2)
+        return ','.join('%d:%d' % (f64bits(float(quat_n[i])), f64bits(float(((1 << 9) - 1) * (abs(quat_n[i]) / M_SQRT1_2) + 0.5)))
+                        for i in range(4))
+
+
+def intlist(l):
+    return ','.join(str(int(x)) for x in l) or '-'
+
+
+# ---- value pools ------------------------------------------------------------------------------------
+F32_MAX = 3.4028234663852886e38
+FLOAT_SPECIAL = [0.0, -0.0, 1.0, -1.0, 0.5, -0.25, float('inf'), float('-inf'), float('nan'), -float('nan'),
+                 F32_MAX, -F32_MAX, 3.4028235677973362e38, 3.4028235677973366e38, -3.4028235677973366e38, 1e39, -1e39, 1e308,
+                 1.401298464324817e-45, -1.401298464324817e-45, 7e-46, 1e-320, 5e-324, 1.1754943508222875e-38,
+                 0.1, -0.1, 3.141592653589793, 6.283185307179586, -6.283185307179586, 6.283185307179587, -6.283185307179587,
+                 6.28318530717958, 65535.0, 65536.0, 32.767, 32.768, -32.768, -32.769, 1e-3]
+INT_AS_FLOAT = [0, 1, -1, 2, 7, -30, 1000, 16777217, 2 ** 127, 2 ** 128, -2 ** 128, 10 ** 40, 10 ** 400, True, False]
+INT_FIELD = [0, 1, 2, 3, 7, 15, 16, 127, 128, 254, 255, 256, 257, -1, -128, -129, 32767, 32768, 65535, 65536, 65537,
+             2 ** 31 - 1, 2 ** 31, 2 ** 32 - 1, 2 ** 32, 2 ** 64, -2 ** 31, True, False]
+VERSIONS = [-1, 0, 1, 5, 6, 7, 8, 9, 10, 11, 255]
+
+
+def rfloat(rng):
+    r = rng.random()
+    if r < 0.22:
+        return rng.choice(FLOAT_SPECIAL)
+    if r < 0.30:
+        return rng.choice(INT_AS_FLOAT)
+    if r < 0.45:
+        return struct.unpack('<d', struct.pack('<Q', rng.getrandbits(64)))[0]        # any binary64 pattern
+    if r < 0.60:
+        return struct.unpack('<f', struct.pack('<I', rng.getrandbits(32)))[0]        # any binary32 pattern (exact)
+    if r < 0.70:
+        return rng.randint(-5, 5)
+    if r < 0.80:
+        return round(rng.uniform(-40, 40), rng.choice([0, 1, 2, 3]))
+    return rng.uniform(-10, 10)
+
+
+def rfield(rng, lim=256):
+    r = rng.random()
+    if r < 0.5:
+        return rng.randrange(lim)
+    if r < 0.8:
+        return rng.choice(INT_FIELD)
+    if r < 0.85:
+        return rng.choice([1.0, 0.0, 2.5, float('nan')])
+    if r < 0.93:
+        return rng.choice([True, False])
+    return rng.randrange(-3, 2 ** 33)
+
+
+def rbool(rng):
+    r = rng.random()
+    if r < 0.8:
+        return rng.choice([True, False])
+    return rfield(rng)
+
+
+def rver(rng):
+    return rng.choice(VERSIONS) if rng.random() < 0.8 else rng.randrange(-1, 40)
+
+
+# ---- one generator per emitting method: returns (model line, thunk on the real code) ------------------
+def g_setpoint(rng):
+    ver = rver(rng)
+    xm = rng.random() < 0.4
+    roll, pitch, yaw = rfloat(rng), rfloat(rng), rfloat(rng)
+    r = rng.random()
+    if r < 0.5:
+        thrust = rng.randrange(0, 65536)
+    elif r < 0.8:
+        thrust = rng.choice([0, 1, 10001, 60000, 65534, 65535, 65536, 65537, -1, -2, 2 ** 32, -2 ** 40, True])
+    else:
+        thrust = rng.choice([0.0, 1000.0, 1000.5, 65535.0, 65535.5, 65536.0, -0.0, -1e-9, -1.0, float('nan'), float('inf'), float('-inf'), 1e300])
+    try:
+        mr, mp = 0.707 * (roll - pitch), 0.707 * (roll + pitch)       # the x-mode double arithmetic (outside the model)
+    except OverflowError:
+        return None    # int too large to convert to float: the mix itself raises (double arithmetic, outside the model)
+    line = '%d setpoint %d %s %s %s %s %s %s' % (ver, xm, num(roll), num(pitch), num(mr), num(mp), num(yaw), num(thrust))
+
+    def real(cf):
+        cf.commander.set_client_xmode(xm)
+        cf.commander.send_setpoint(roll, pitch, yaw, thrust)
+    return ver, line, real, ('setpoint', xm, ver <= 8)
+
+
+def g4(name, meth):
+    def g(rng):
+        ver = rver(rng)
+        a = [rfloat(rng) for _ in range(4)]
+        line = '%d %s %s' % (ver, name, ' '.join(num(x) for x in a))
+        return ver, line, (lambda cf: getattr(cf.commander, meth)(*a)), (name, ver <= 8)
+    return g
+
+
+def g_notify(rng):
+    ver = rver(rng)
+    ms = rfield(rng, 2 ** 32)
+    return ver, '%d notifyStop %s' % (ver, num(ms)), (lambda cf: cf.commander.send_notify_setpoint_stop(ms)), ('notifyStop',)
+
+
+def g_simple(name, fn):
+    def g(rng):
+        ver = rver(rng)
+        return ver, '%d %s' % (ver, name), fn, (name,)
+    return g
+
+
+def rvec(rng):
+    r = rng.random()
+    if r < 0.55:
+        return [round(rng.uniform(-33, 33), rng.choice([1, 2, 3, 4, 9])) for _ in range(3)]
+    if r < 0.7:
+        return [rng.choice([32.767, 32.768, 32.7679999, -32.768, -32.769, -32.7689999, 32.7675, 0.0005, -0.0005, 0.001, 0.0009999,
+                            1.0005, 0.0, -0.0, 32, -32, 33, -33, 0, 1, 1e-320]) for _ in range(3)]
+    if r < 0.8:
+        return [rng.choice([float('nan'), float('inf'), float('-inf'), 1e300, -1e300, 1e18, 4.5e15, 2 ** 70, 1.0]) for _ in range(3)]
+    return [rfloat(rng) for _ in range(3)]
+
+
+def rquat(rng):
+    r = rng.random()
+    if r < 0.5:
+        return [rng.gauss(0, 1) for _ in range(4)]
+    if r < 0.7:
+        q = [rng.choice([0.0, -0.0, 1.0, -1.0, 0.5, -0.5, 0.7071067811865476, -0.7071067811865476, 0, 1, -1]) for _ in range(4)]
+        return q
+    if r < 0.8:
+        q = [0.0] * 4
+        q[rng.randrange(4)] = rng.choice([1.0, -1.0, 2.0, -1e-3, 1, -1])
+        return q
+    if r < 0.9:
+        return [rng.choice([float('nan'), float('inf'), float('-inf'), 1e200, -1e200, 1e-200, -1e-200, 0.0, 1.0, 5e-324]) for _ in range(4)]
+    a = rng.uniform(-1, 1)
+    return [a, rng.choice([a, -a]), rng.choice([a, -a, 0.0]), rng.choice([a, -a, 0.0])]
+
+
+def g_fullstate(rng):
+    ver = rver(rng)
+    pos, vel, acc, rates = rvec(rng), rvec(rng), rvec(rng), rvec(rng)
+    quat = rquat(rng)
+    try:
+        line = '%d fullState %s %s %s %s %s' % (ver, vec3(pos), vec3(vel), vec3(acc), quat_oracle(quat), vec3(rates))
+    except OverflowError:
+        return None     # int * 1000 -> float overflow inside the double arithmetic (outside the model)
+
+    def real(cf):
+        cf.commander.send_full_state_setpoint(list(pos), list(vel), list(acc), list(quat), rates[0], rates[1], rates[2])
+    return ver, line, real, ('fullState',)
+
+
+def g_hl1(name, meth):
+    def g(rng):
+        ver = rver(rng)
+        gm = rfield(rng)
+        return ver, '%d %s %s' % (ver, name, num(gm)), (lambda cf: getattr(cf.high_level_commander, meth)(gm)), (name,)
+    return g
+
+
+def g_hl_takeoff(name, meth):
+    def g(rng):
+        ver = rver(rng)
+        h, d, gm = rfloat(rng), rfloat(rng), rfield(rng)
+        yaw = None if rng.random() < 0.3 else rfloat(rng)
+        line = '%d %s %s %s %s %s' % (ver, name, num(h), num(d), num(gm), optnum(yaw))
+        return ver, line, (lambda cf: getattr(cf.high_level_commander, meth)(h, d, group_mask=gm, yaw=yaw)), (name, yaw is None)
+    return g
+
+
+def g_hl_goto(rng):
+    ver = rver(rng)
+    x, y, z, yaw, d = (rfloat(rng) for _ in range(5))
+    rel, lin, gm = rbool(rng), rbool(rng), rfield(rng)
+    line = '%d hlGoTo %s' % (ver, ' '.join(num(v) for v in (x, y, z, yaw, d, rel, lin, gm)))
+    return ver, line, (lambda cf: cf.high_level_commander.go_to(x, y, z, yaw, d, relative=rel, linear=lin, group_mask=gm)), ('hlGoTo', ver < 8)
+
+
+def g_hl_spiral(rng):
+    ver = rver(rng)
+    r = rng.random()
+    if r < 0.5:
+        angle = rng.uniform(-8, 8)
+    elif r < 0.7:
+        angle = rng.choice([6.283185307179586, 6.283185307179587, 6.283185307179585, -6.283185307179586, -6.283185307179587, 6, 7, -6, -7,
+                            float('nan'), float('inf'), float('-inf'), 0.0])
+    else:
+        angle = rfloat(rng)
+    r0 = rng.choice([rng.uniform(-1, 2), rfloat(rng), 0.0, -0.0, -1, 0, 1, -5e-324, float('nan'), float('-inf')])
+    rf = rng.choice([rng.uniform(-1, 2), rfloat(rng), 0.0, -0.0, -1, 0, 1, -5e-324, float('nan'), float('-inf')])
+    asc, d = rfloat(rng), rfloat(rng)
+    sw, cw, gm = rbool(rng), rbool(rng), rfield(rng)
+    line = '%d hlSpiral %s' % (ver, ' '.join(num(v) for v in (angle, r0, rf, asc, d, sw, cw, gm)))
+    return ver, line, (lambda cf: cf.high_level_commander.spiral(angle, r0, rf, asc, d, sideways=sw, clockwise=cw, group_mask=gm)), ('hlSpiral', ver < 8)
+
+
+def g_hl_start(rng):
+    ver = rver(rng)
+    tid, ts, rel, rev, gm = rfield(rng), rfloat(rng), rbool(rng), rbool(rng), rfield(rng)
+    line = '%d hlStartTraj %s' % (ver, ' '.join(num(v) for v in (tid, ts, rel, rev, gm)))
+    return ver, line, (lambda cf: cf.high_level_commander.start_trajectory(tid, ts, relative=rel, reversed=rev, group_mask=gm)), ('hlStartTraj',)
+
+
+def g_hl_define(rng):
+    ver = rver(rng)
+    tid, off, n, ty = rfield(rng), rfield(rng, 2 ** 32), rfield(rng), rng.choice([0, 1, 0, 1, rfield(rng)])
+    line = '%d hlDefineTraj %s' % (ver, ' '.join(num(v) for v in (tid, off, n, ty)))
+    return ver, line, (lambda cf: cf.high_level_commander.define_trajectory(tid, off, n, ty)), ('hlDefineTraj',)
+
+
+def g_extpos(name, wrap):
+    def g(rng):
+        ver = rver(rng)
+        a = [rfloat(rng) for _ in range(3)]
+        line = '%d %s %s' % (ver, name, ' '.join(num(v) for v in a))
+        if wrap:
+            return ver, line, (lambda cf: cf.extpos.send_extpos(*a)), (name,)
+        return ver, line, (lambda cf: cf.loc.send_extpos(list(a))), (name,)
+    return g
+
+
+def g_extpose(name, wrap):
+    def g(rng):
+        ver = rver(rng)
+        a = [rfloat(rng) for _ in range(7)]
+        line = '%d %s %s' % (ver, name, ' '.join(num(v) for v in a))
+        if wrap:
+            return ver, line, (lambda cf: cf.extpos.send_extpose(*a)), (name,)
+        return ver, line, (lambda cf: cf.loc.send_extpose(list(a[:3]), list(a[3:]))), (name,)
+    return g
+
+
+def g_shortlpp(rng):
+    ver = rver(rng)
+    dest = rfield(rng)
+    data = bytes(rng.randrange(256) for _ in range(rng.choice([0, 1, 2, 5, 13, 27, 28, 29, 30, 40])))
+    kind = rng.choice([bytes, bytearray])
+    line = '%d shortLpp %s %s' % (ver, num(dest), hexs(data))
+    return ver, line, (lambda cf: cf.loc.send_short_lpp_packet(dest, kind(data))), ('shortLpp', len(data) > 28)
+
+
+def rbslist(rng):
+    r = rng.random()
+    if r < 0.15:
+        return []
+    if r < 0.7:
+        return rng.sample(range(16), rng.randrange(1, 17))
+    if r < 0.8:
+        return [rng.randrange(16) for _ in range(rng.randrange(1, 6))]          # may contain duplicates
+    return [rng.choice([-1, 0, 1, 14, 15, 16, 17, -5, 100]) for _ in range(rng.randrange(1, 4))]
+
+
+def g_lhpersist(rng):
+    ver = rver(rng)
+    geo, cal = rbslist(rng), rbslist(rng)
+    line = '%d lhPersist %s %s' % (ver, intlist(geo), intlist(cal))
+    return ver, line, (lambda cf: cf.loc.send_lh_persist_data_packet(list(geo), list(cal))), ('lhPersist', len(set(geo)) < len(geo) or len(set(cal)) < len(cal))
+
+
+def g_plat(name, meth):
+    def g(rng):
+        ver = rver(rng)
+        v = rbool(rng)
+        return ver, '%d %s %s' % (ver, name, num(v)), (lambda cf: getattr(cf.platform, meth)(v)), (name,)
+    return g
+
+
+def g_lopo_pos(rng):
+    ver = rver(rng)
+    aid = rfield(rng)
+    a = [rfloat(rng) for _ in range(3)]
+    line = '%d lopoPosition %s %s' % (ver, num(aid), ' '.join(num(v) for v in a))
+    return ver, line, (lambda cf: cf.lopo.set_position(aid, list(a))), ('lopoPosition',)
+
+
+def g_lopo2(name, meth):
+    def g(rng):
+        ver = rver(rng)
+        aid, mode = rfield(rng), rng.choice([0, 1, 2, 3, rfield(rng)])
+        line = '%d %s %s %s' % (ver, name, num(aid), num(mode))
+        return ver, line, (lambda cf: getattr(cf.lopo, meth)(aid, mode)), (name,)
+    return g
+
+
+GENERATORS = [
+    ('setpoint', g_setpoint, 6), ('notifyStop', g_notify, 2),
+    ('stopSetpoint', g_simple('stopSetpoint', lambda cf: cf.commander.send_stop_setpoint()), 0.2),
+    ('velocityWorld', g4('velocityWorld', 'send_velocity_world_setpoint'), 4), ('zdistance', g4('zdistance', 'send_zdistance_setpoint'), 4),
+    ('hover', g4('hover', 'send_hover_setpoint'), 4), ('fullState', g_fullstate, 8), ('position', g4('position', 'send_position_setpoint'), 3),
+    ('hlGroupMask', g_hl1('hlGroupMask', 'set_group_mask'), 1), ('hlTakeoff', g_hl_takeoff('hlTakeoff', 'takeoff'), 3),
+    ('hlLand', g_hl_takeoff('hlLand', 'land'), 3), ('hlStop', g_hl1('hlStop', 'stop'), 1), ('hlGoTo', g_hl_goto, 4), ('hlSpiral', g_hl_spiral, 5),
+    ('hlStartTraj', g_hl_start, 3), ('hlDefineTraj', g_hl_define, 3),
+    ('extpos', g_extpos('extpos', False), 2), ('extposWrap', g_extpos('extposWrap', True), 1),
+    ('extpose', g_extpose('extpose', False), 2), ('extposeWrap', g_extpose('extposeWrap', True), 1),
+    ('shortLpp', g_shortlpp, 3),
+    ('emergencyStop', g_simple('emergencyStop', lambda cf: cf.loc.send_emergency_stop()), 0.2),
+    ('emergencyWatchdog', g_simple('emergencyWatchdog', lambda cf: cf.loc.send_emergency_stop_watchdog()), 0.2),
+    ('lhPersist', g_lhpersist, 4), ('contWave', g_plat('contWave', 'set_continous_wave'), 1), ('arming', g_plat('arming', 'send_arming_request'), 1),
+    ('crashRecovery', g_simple('crashRecovery', lambda cf: cf.platform.send_crash_recovery_request()), 0.2),
+    ('lopoPosition', g_lopo_pos, 2), ('lopoReboot', g_lopo2('lopoReboot', 'reboot'), 1), ('lopoMode', g_lopo2('lopoMode', 'set_mode'), 1),
+]
+
+
+def gen_cases(ctx):
+    rng = ctx.rng
+    base = 60 if ctx.tier == 'quick' else 600
+    cases = []
+    for name, g, w in GENERATORS:
+        n = max(3, int(base * w))
+        made = 0
+        tries = 0
+        while made < n and tries < 4 * n:
+            tries += 1
+            c = g(rng)
+            if c is None:
+                ctx.count('skipped:double-arithmetic-raises')
+                continue
+            made += 1
+            cases.append((name,) + c)
+    return cases
+
+
+def correspond(ctx):
+    cases = gen_cases(ctx)
+    replies = ctx.lean(DRIVER, [c[2] for c in cases])
+    for (name, ver, line, real, key), model in zip(cases, replies):
+        got = run_real(ver, real)
+        ctx.count('op:' + name)
+        ctx.count('result:' + (got.split(' ')[0] if got.startswith('ok') else got))
+        if got == 'ok -':
+            ctx.count('result:nothing-sent')
+        ctx.case({'line': line[:200]}, (name, line))
+        if got != model:
+            ctx.disagree(name, line[:400], model[:300], got[:300])
+
+
+def search(ctx):
+    pass
